@@ -449,9 +449,8 @@ func (w *World) mint(fn, exec, leaf, elem int, t int, poison bool, inputs []int6
 	}
 	switch {
 	case IsIface(t):
-		// Results are never declared with interface types by the generator;
-		// fall back to a K0 payload.
-		p = kNew[0](s)
+		// a result declared with interface type I<j>: K<j> implements it
+		p = kNew[t-TIface](s)
 	case isVal(t):
 		p = vNew[t](s)
 	default:
